@@ -42,6 +42,7 @@
 #include <new>
 #include <optional>
 #include <sstream>
+#include <stdexcept>
 #include <string>
 #include <variant>
 #include <vector>
@@ -329,6 +330,7 @@ struct World {
   long virt_news = 0;                      // copies of kept handles handed to the pipeline (the model counts each as one source core)
   std::vector<std::string> asserts;
   long live_tokens = 0;
+  long live_states = 0;  // heap states owned by free-job functors (OwnFn)
   bool bad = false;
 
   World() {
@@ -489,14 +491,61 @@ struct Fn0 {
     return Body<Ret>(d, RVal{'v', 0});
   }
 };
-// a job that is not a pipeline step: handed to yaclib::Submit(executor, f) (exe/submit.hpp), logs itself like a callback
-struct FreeFn {
-  int id;
-  Token tok;
+// a job that is not a pipeline step: a functor handed to yaclib::Submit(executor, f) (exe/submit.hpp).  It OWNS heap state
+// (its tag; instance-counted) so that a moved-from or aliased functor is visible: a husk logs kHusk, a functor that shares
+// the caller's object logs the caller's current tag.  It logs itself like a callback and then ends as its outcome says.
+struct UserStruct {
+  int what;
+};
+struct OwnFn {
+  static constexpr int kHusk = 999999;
+  int* st = nullptr;  // owned; nullptr = moved-from
+  char out = 'r';     // r returns, s throws std::runtime_error, i throws an int, u throws a user struct
+  OwnFn(int tag, char o) : out{o} {
+    cnt::Off off;
+    st = new int{tag};
+    ++W->live_states;
+    ++W->live_tokens;
+  }
+  OwnFn(const OwnFn& o) : out{o.out} {
+    cnt::Off off;
+    if (o.st != nullptr) {
+      st = new int{*o.st};
+      ++W->live_states;
+    }
+    ++W->live_tokens;
+  }
+  OwnFn(OwnFn&& o) noexcept : st{o.st}, out{o.out} {
+    o.st = nullptr;
+    ++W->live_tokens;
+  }
+  OwnFn& operator=(const OwnFn&) = delete;
+  OwnFn& operator=(OwnFn&&) = delete;
+  ~OwnFn() {
+    cnt::Off off;
+    if (st != nullptr) {
+      delete st;
+      --W->live_states;
+    }
+    --W->live_tokens;
+  }
+  int Tag() const {
+    return st != nullptr ? *st : kHusk;
+  }
   void operator()() {
     cnt::Off off;
-    W->inv.push_back(id);
-    W->ran.push_back({id, W->Ctx()});
+    W->inv.push_back(Tag());
+    W->ran.push_back({Tag(), W->Ctx()});
+    switch (out) {
+      case 's':
+        throw std::runtime_error{"free job"};
+      case 'i':
+        throw 42;
+      case 'u':
+        throw UserStruct{7};
+      default:
+        break;
+    }
   }
 };
 struct PromFn {
@@ -1015,6 +1064,7 @@ struct Interp {
   bool started = false;  // a src line was seen
   std::optional<RVal> got;
   bool free_mode = false;  // the program hands free jobs to the executors (no pipeline)
+  std::map<int, std::unique_ptr<OwnFn>> named;  // the client's named functors f<j> (free-job programs)
   long last_news = 0;
   long last_virt = 0;
   ProgD top;  // keeps the StepD of the top-level pipeline alive (functors point into it)
@@ -1067,6 +1117,14 @@ struct Interp {
     }
     s += " al=" + std::to_string(cnt::news - last_news + W->virt_news - last_virt) + " lc=" + std::to_string(cnt::live + virt_live) +
          " lf=" + std::to_string(W->live_tokens);
+    if (free_mode) {
+      s += " ls=" + std::to_string(W->live_states) + " fns=";
+      bool first = true;
+      for (auto& [j, f] : named) {
+        s += (first ? "f" : ",f") + std::to_string(j) + ":" + (f->st != nullptr ? std::to_string(*f->st) : std::string("husk"));
+        first = false;
+      }
+    }
     last_news = cnt::news;
     last_virt = W->virt_news;
     for (const auto& a : W->asserts) {
@@ -1200,18 +1258,54 @@ struct Interp {
     if (W->bad) {
       return "bad";
     }
-    if (c == "submit" && t.size() == 3) {
-      // a program without a pipeline: free jobs, `submit <ex> <id>` = yaclib::Submit(<ex>, f_<id>)
+    // a program without a pipeline: free jobs (Model/FreeJob.lean)
+    //   submit <ex> <id> [ret|std|int|usr]    yaclib::Submit(<ex>, OwnFn{id})            (rvalue functor)
+    //   fn f<j> <tag> [ret|std|int|usr]       the client creates the named functor f<j>
+    //   submitl <ex> f<j>                     yaclib::Submit(<ex>, f<j>)                 (lvalue: the job gets a COPY)
+    //   mut f<j> <tag>                        the client changes the state of f<j>
+    //   kill f<j>                             the client destroys f<j>
+    if (c == "submit" || c == "submitl" || c == "fn" || c == "mut" || c == "kill") {
+      auto outcome = [&](size_t i, char& o) {
+        o = 'r';
+        if (t.size() <= i) {
+          return true;
+        }
+        o = t[i] == "ret" ? 'r' : t[i] == "std" ? 's' : t[i] == "int" ? 'i' : t[i] == "usr" ? 'u' : '?';
+        return o != '?' && t.size() == i + 1;
+      };
+      auto fname = [&](const std::string& x, long& j) {
+        return x.size() >= 2 && x[0] == 'f' && ParseLong(x.substr(1), j);
+      };
       ExRef e;
-      long id;
-      if (started || !ParseEx(t[1], e) || !ParseLong(t[2], id)) {
+      long id, j;
+      char o;
+      if (started) {
         return "bad";
       }
-      free_mode = true;
-      yaclib::IExecutor& ex = Exec(e);
-      {
+      if (c == "submit" && t.size() >= 3 && ParseEx(t[1], e) && ParseLong(t[2], id) && outcome(3, o)) {
+        free_mode = true;
+        yaclib::IExecutor& ex = Exec(e);
         cnt::On on;
-        yaclib::Submit(ex, FreeFn{static_cast<int>(id), {}});
+        yaclib::Submit(ex, OwnFn{static_cast<int>(id), o});
+      } else if (c == "fn" && t.size() >= 3 && fname(t[1], j) && ParseLong(t[2], id) && outcome(3, o)) {
+        free_mode = true;
+        named.erase(static_cast<int>(j));
+        named.emplace(static_cast<int>(j), std::make_unique<OwnFn>(static_cast<int>(id), o));
+      } else if (c == "submitl" && t.size() == 3 && ParseEx(t[1], e) && fname(t[2], j) && named.count(static_cast<int>(j))) {
+        free_mode = true;
+        yaclib::IExecutor& ex = Exec(e);
+        OwnFn& f = *named[static_cast<int>(j)];
+        cnt::On on;
+        yaclib::Submit(ex, f);
+      } else if (c == "mut" && t.size() == 3 && fname(t[1], j) && ParseLong(t[2], id) && named.count(static_cast<int>(j))) {
+        OwnFn& f = *named[static_cast<int>(j)];
+        if (f.st != nullptr) {
+          *f.st = static_cast<int>(id);
+        }
+      } else if (c == "kill" && t.size() == 2 && fname(t[1], j) && named.count(static_cast<int>(j))) {
+        named.erase(static_cast<int>(j));
+      } else {
+        return "bad";
       }
       return State();
     }
